@@ -36,7 +36,7 @@ class ModelMixin:
                      "ite", "unit", "is_none", "is_str", "is_int", "is_ref", "last", "ref", "allocated",
                      "held", "is_list_of_pos_int", "cls_id", "is_float", "sval", "ival", "dget", "singleton", "str", "is_bool", "is_dict", "is_list",
                      "setof", "contains", "prefix_of", "is_bytes", "is_cls", "map_int2str", "joinstr", "split", "lookup_global",
-                     "funcval", "seqmap", "extends", "only_changed", "UNSET", "unchanged", "unchanged_old", "cls_module_name", "all_reports", "empty_log", "count_failed", "suffix_of", "proj_a", "all_b", "all_tag", "card", "outside", "mro", "none_in", "is_concat", "none_missing", "is_subset", "union", "restrict", "lvk", "unlvk", "prefkeys", "setminus", "all_values", "ref_field", "handling_exception", "bound_args", "setof_seq", "instance_of", "str_endswith", "filter_out", "params_of", "truthy", "is_prefix", "proj_b", "all_b_not", "all_a", "all_nat", "levelstr", "ascii_ok", "bytes_of", "str_contains", "codec_facts", "is_tuple"}
+                     "funcval", "seqmap", "extends", "only_changed", "UNSET", "unchanged", "unchanged_old", "cls_module_name", "all_reports", "empty_log", "count_failed", "suffix_of", "proj_a", "all_b", "all_tag", "card", "outside", "mro", "none_in", "is_concat", "none_missing", "is_subset", "union", "restrict", "lvk", "unlvk", "prefkeys", "setminus", "all_values", "ref_field", "handling_exception", "bound_args", "setof_seq", "instance_of", "str_endswith", "str_startswith", "iso_text", "filter_out", "params_of", "truthy", "is_prefix", "proj_b", "all_b_not", "all_a", "all_nat", "levelstr", "ascii_ok", "bytes_of", "str_contains", "codec_facts", "is_tuple"}
 
     # ------------------------------------------------------------------ spec-mode calls
     def spec_call(self, e, st):
@@ -322,6 +322,12 @@ class ModelMixin:
             v = a[0]
             ref = Val.rv(v.t) if v.k == "val" else v.t
             return SV("val", self.hget(st, z3.simplify(a[1].t).as_string(), ref))
+        if name == "iso_text":
+            # iso_text(t, utc, sep): datetime.{utc,}fromtimestamp(t).isoformat(sep) as an uninterpreted function of its inputs
+            f = z3.Function("iso_text", Val, B, S, S)
+            return SV("str", f(box(a[0]), self.truth(st, a[1]), a[2].t))
+        if name == "str_startswith":
+            return SV("bool", z3.PrefixOf(a[1].t, a[0].t))
         if name == "str_endswith":
             return SV("bool", z3.SuffixOf(a[1].t, a[0].t))
         if name == "instance_of":
@@ -617,6 +623,32 @@ class ModelMixin:
                 return [Res(st, SV("int", self.dict_size(st, v)))]
             if v.k == "cset":
                 raise Unsupported("len of constant set")
+            if v.k == "val":
+                # len() of a dynamically typed value: a dict / list object has its size; any other object answers through an opaque
+                # __len__ (any result, any exception); a primitive other than text raises TypeError, text has some length >= 0
+                t = v.t
+                out = []
+                isd = z3.And(Val.is_RefV(t), clsof(Val.rv(t)) == self.ct.id("dict"))
+                isl = z3.And(Val.is_RefV(t), z3.Or(clsof(Val.rv(t)) == self.ct.id("list"), clsof(Val.rv(t)) == self.ct.id("tuple")))
+                for s2, b in self.fork(st, isd, "len:dict"):
+                    if b:
+                        out.append(Res(s2, SV("int", self.dict_size(s2, SV("dict", Val.rv(t))))))
+                        continue
+                    for s3, b3 in self.fork(s2, isl, "len:list"):
+                        if b3:
+                            out.append(Res(s3, SV("int", z3.Length(self.hget(s3, "$seq", Val.rv(t))))))
+                            continue
+                        for s4, b4 in self.fork(s3, Val.is_RefV(t), "len:obj"):
+                            if b4:
+                                out.extend(self.call_opaque(s4, SV("obj", Val.rv(t), h="Opaque"), "Opaque", "__len__", [], {}, None, None))
+                            else:
+                                s5 = s4.copy()
+                                out.append(self.raise_new(s5, "TypeError"))
+                                n_ = self.fresh("textlen", I)
+                                s4.assume(z3.And(z3.Or(Val.is_StrV(t), Val.is_BytesV(t)), n_ >= 0))
+                                if self.feasible(s4):
+                                    out.append(Res(s4, SV("int", n_)))
+                return out
             raise Unsupported("len of " + v.k)
         if name == "isinstance":
             return [Res(st, SV("bool", self.isinstance_(st, a[0], a[1])))]
@@ -636,6 +668,22 @@ class ModelMixin:
             if a and a[0].k == "list" and a[0].x == "pairs":
                 dom, mp = a[0].h
                 return [Res(st, self.new_dict(st, dom, mp))]
+            if a and a[0].k == "val" and not kw:
+                # dict(x) for a dynamically typed x: a copy if x is a dict object; for anything else the result depends on x's own
+                # iteration protocol (opaque: any dict, or any exception)
+                t = a[0].t
+                out = []
+                for s2, b in self.fork(st, z3.And(Val.is_RefV(t), clsof(Val.rv(t)) == self.ct.id("dict")), "dict():dict"):
+                    if b:
+                        d0 = SV("dict", Val.rv(t))
+                        out.append(Res(s2, self.new_dict(s2, self.dom_of(s2, d0), self.map_of(s2, d0))))
+                    else:
+                        s3 = s2.copy()
+                        out.append(self.raise_new(s3, "TypeError"))
+                        s4 = s2.copy()
+                        out.append(self.raise_new(s4, "ValueError"))
+                        out.append(Res(s2, self.new_dict(s2, self.fresh("ddom", SetV), self.fresh("dmap", MapV))))
+                return out
             raise Unsupported("dict() of " + (a[0].k if a else "kwargs"))
         if name in ("list", "tuple"):
             if not a:
@@ -997,6 +1045,10 @@ class ModelMixin:
                 return [Res(st, SV("none"))]
             if name in ("items", "keys", "values"):
                 return [Res(st, SV("dictview", (recv, name)))]
+            if name == "clear" and not a and recv.x != "pmap":
+                self.hset(st, "$dom", recv.t, z3.K(Val, z3.BoolVal(False)))
+                self.hset(st, "$map", recv.t, z3.K(Val, NoneV))
+                return [Res(st, SV("none"))]
             if name == "setdefault":
                 kb = box(a[0])
                 has = z3.Select(dom, kb)
